@@ -16,6 +16,11 @@ CLAIMED = {
         "note": "Does not decide byte-for-byte parity of values between the arms (e.g. the scan_transaction_outputs divergence of DESIGN.md section 5 is out of reach). The NO_HANDLER / RUNTIME_UNCONVERTED tables in rules/C04.py are reviewed by reading and trusted.",
         "technique": "static analysis: CFG control-dependence on a predicate (guard facts), call-graph closure, who-may-write/import census, handler coverage",
     },
+    "C20": {
+        "text": "Static typestate/ownership decision: in musig2.sign a store of 64 zero octets over the secret scalars lies on every path to a normal return, directly after the only reads of them and before any refusal or arithmetic, and every caller hands over its own bytearray (no copy); every public method of dsa.Signer, ssa.Signer, SoftwareSigner and HwiSigner that reaches a signing primitive, a private-key helper or the device refuses on the terminal flag first (directly or through a checked sibling), the flags are only ever set outside constructors and wipe drops the key material; the wallet counters have exactly the reviewed writers, the next-index update reads its previous value and every hand-out is recorded; the shared wordlist tables are written only under their lock with the 'loaded' length last; callers of memoized functions returning mutable tables never mutate or leak them; the backend flag has one writer and no cached copy.",
+        "note": "Linearizability under concurrent callers is not decided beyond the lock discipline of the one locked structure; 'signs at most once' is decided as consumption of the nonce buffer, not over arbitrary caller code that copies the nonce before calling.",
+        "technique": "static analysis: typestate (consume / flag-checked / monotone) on the CFG, who-may-write census, depends-on-old dataflow, lock-scope check, call-site mutation check for memoized results",
+    },
 }
 
 _PENDING = "check not built yet in this session (static rules designed in DESIGN.md section 4)"
